@@ -270,7 +270,54 @@ var hookSecondary = map[string]bool{"setlog.log": true, "del.ref": true, "rename
 
 func (w *World) doCLI(kind string, id uuid.UUID, k int, how string) (res string, fired bool, errText string, panicked string) {
 	if k > 0 && how != "crashed" {
-		return "", false, "", "harness: only crashes can be injected in CLI mode"
+		// no error can be injected into the stores the command opens for itself; what can be had is a commit
+		// of a transaction that meets an unreadable object: the commit a staged ref names (the k-th, in name order)
+		// is taken out of the object store for the duration of the command.  The specification's "a failure at any
+		// point" (ExecAny with a fired fault) covers wherever the command stops
+		if kind != "commit" {
+			k = 0
+		} else {
+			staged, lerr := ref.ListTransactionRefs(w.RS, id)
+			if lerr != nil || len(staged) == 0 {
+				k = 0
+			} else {
+				names := make([]string, 0, len(staged))
+				for n := range staged {
+					names = append(names, n)
+				}
+				sort.Strings(names)
+				sum := staged[names[(k-1)%len(names)]]
+				key := append([]byte("com/"), sum...)
+				raw, gerr := w.DB.Get(key)
+				if gerr != nil {
+					k = 0
+				} else {
+					if derr := w.DB.Delete(key); derr != nil {
+						return "", false, "", "harness: hide commit: " + derr.Error()
+					}
+					defer func() {
+						if w.DB != nil {
+							if serr := w.DB.Set(key, raw); serr != nil && panicked == "" {
+								panicked = "harness: restore commit: " + serr.Error()
+							}
+						}
+					}()
+				}
+			}
+		}
+		w.closeFn()
+		w.closeFn = nil
+		out, err := w.repo.Run(nil, "transaction", kind, id.String())
+		if oerr := w.open(); oerr != nil {
+			return "", k > 0, "", "harness: reopen: " + oerr.Error()
+		}
+		switch {
+		case err != nil && strings.HasPrefix(err.Error(), "PANIC"):
+			return "", k > 0, "", err.Error()
+		case err != nil:
+			return "err", k > 0, err.Error() + " " + out, ""
+		}
+		return "ok", k > 0, "", ""
 	}
 	w.closeFn()
 	w.closeFn = nil
